@@ -28,7 +28,8 @@ ALL_PARAMS = ['factor_update_steps', 'inv_update_steps', 'damping',
 
 def ref_constants(cfg: kaisa.Config, alphabet: list[str], micro: list[int],
                   sched_args: list[int], depth: int,
-                  strict: bool = False) -> str:
+                  strict: bool = False, save_args: tuple = (True, False),
+                  load_args: tuple = (True, False)) -> str:
     def ispec(v: Any) -> str:
         if isinstance(v, str):
             return f'[kind |-> "fn", v |-> 0, name |-> "{v}"]'
@@ -49,6 +50,7 @@ def ref_constants(cfg: kaisa.Config, alphabet: list[str], micro: list[int],
         f'SchedFn == {tla(sf)}\nAlphabet == {tla(set(alphabet))}\n'
         f'Micro == {tla(set(micro))}\nSchedArgs == {tla(set(sched_args))}\n'
         f'MaxDepth == {depth}\nStrict == {tla(bool(strict))}\n'
+        f'SaveArgs == {tla(set(save_args))}\nLoadArgs == {tla(set(load_args))}\n'
     )
 
 
@@ -59,12 +61,13 @@ PROPS = ['StepCountsByOne', 'FactorsChangeOnlyOnUpdateSteps',
 
 def check_spec(cfg: kaisa.Config, alphabet: list[str], micro: list[int],
                sched_args: list[int], depth: int, workers: int = 4,
-               timeout: int = 1200, strict: bool = False) -> TLCResult:
+               timeout: int = 1200, strict: bool = False,
+               **ckw: Any) -> TLCResult:
     """Exhaustive TLC run of KfacRef (history hidden by VIEW)."""
     name = 'MC_KfacRef'
     mod = instantiate('KfacRef', name,
                       ref_constants(cfg, alphabet, micro, sched_args, depth,
-                                    strict))
+                                    strict, **ckw))
     cfgt = 'SPECIFICATION Spec\nVIEW view\nINVARIANT TypeOK\n' + ''.join(
         f'PROPERTY {p}\n' for p in PROPS) + 'CHECK_DEADLOCK FALSE\n'
     return run_tlc(name, cfg_text=cfgt, extra_modules={name: mod},
@@ -74,7 +77,7 @@ def check_spec(cfg: kaisa.Config, alphabet: list[str], micro: list[int],
 def gen_behaviours(cfg: kaisa.Config, alphabet: list[str], micro: list[int],
                    sched_args: list[int], depth: int, num: int, seed: int,
                    timeout: int = 600, exhaustive: bool = False,
-                   strict: bool = False,
+                   strict: bool = False, **ckw: Any,
                    ) -> tuple[list[list[dict]], TLCResult]:
     """Behaviours of KfacRef printed as JSON when they end.
 
@@ -85,7 +88,7 @@ def gen_behaviours(cfg: kaisa.Config, alphabet: list[str], micro: list[int],
     name = 'MC_KfacRefGen'
     mod = instantiate('KfacRef', name,
                       ref_constants(cfg, alphabet, micro, sched_args, depth,
-                                    strict))
+                                    strict, **ckw))
     cfgt = ('SPECIFICATION Spec\nCONSTRAINT EmitDone\n'
             'CHECK_DEADLOCK FALSE\n')
     if exhaustive:
@@ -450,6 +453,9 @@ def compare(cfg: kaisa.Config, hist: list[dict[str, Any]],
                 want_dt = kaisa.DT[cfg.factor_dtype] or dtype
                 if got_t.dtype != want_dt:
                     add('factor', i, f'{name}.{kind}: dtype {got_t.dtype}')
+                if not torch.isfinite(got_t).all():
+                    add('factor', i, f'{name}.{kind}: not finite')
+                    continue
                 e = rel(got_t, want_t)
                 stats['max_factor_err'] = max(stats['max_factor_err'], e)
                 tol = TOL_FACTOR * factor_tol_scale(got_t.dtype)
@@ -473,6 +479,9 @@ def compare(cfg: kaisa.Config, hist: list[dict[str, Any]],
             got = out['grads']
             tol = TOL_GRAD * grad_tol_scale(cfg) * max(1.0, info['cond'] / 50)
             for k, wv in want.items():
+                if not torch.isfinite(got[k]).all():
+                    add('grad', i, f'{k}: not finite')
+                    continue
                 e = rel(got[k], wv)
                 stats['max_grad_err'] = max(stats['max_grad_err'], e / tol)
                 if e > tol:
@@ -487,6 +496,8 @@ def compare(cfg: kaisa.Config, hist: list[dict[str, Any]],
             # must solve the defining system built from the reference factors
             for name, mod in layers.items():
                 a_, g_ = info['AG'][name]
+                if not all(torch.isfinite(got[k]).all() for k in got):
+                    break
                 gotv = interp.combined(mod, got, name) / info['nu']
                 res = interp.residual(a_, g_, gotv, info['D'][name],
                                       interp.method(), *info['lams'])
